@@ -361,6 +361,7 @@ func reportKnown(t *testing.T, id string) {
 		knownReplay = true
 		o := rp(rf.Case)
 		knownReplay = false
+		watchdogDisarm()
 		if o.Err != nil {
 			fmt.Printf("KNOWN-FINDING: property=%s %s: %s\n", id, f.ID, f.What)
 		} else {
@@ -395,7 +396,9 @@ func runRegress(t *testing.T, id string) {
 		if !okk {
 			t.Fatalf("%s: no check %s/%s", f, rf.Property, rf.Check)
 		}
+		crumb(rf.Property, rf.Check, rf.Case) // a crash / race during the replay is attributed to this case
 		o := rp(rf.Case)
+		clearCrumb(rf.Property)
 		R.Class("regress", 1)
 		if o.Err != nil {
 			abs, _ := filepath.Abs(f)
